@@ -9,8 +9,8 @@ import (
 	"context"
 	"encoding/json"
 	"errors"
-	"regexp"
 	"net/http/httptest"
+	"regexp"
 	"runtime"
 	"sort"
 	"strconv"
@@ -62,6 +62,21 @@ func (f *fakeSched) When() time.Time {
 		return time.Now().Add(-time.Hour - 100*time.Millisecond)
 	}
 	panic("bad pulse state " + f.state)
+}
+
+// gatedErr is an error whose Error() parks until released: Finish(err) calls it
+// while it is building the failure message.
+type gatedErr struct {
+	msg     string
+	entered chan struct{}
+	release chan struct{}
+	once    sync.Once
+}
+
+func (e *gatedErr) Error() string {
+	e.once.Do(func() { close(e.entered) })
+	<-e.release
+	return e.msg
 }
 
 type runner struct {
@@ -200,6 +215,41 @@ func (r *runner) Op(t []string) string {
 			return "bad-op"
 		}
 		return "ok"
+	case t[0] == "sfr" && len(t) == 4:
+		// Finish(err) in flight: err.Error() parks (the code renders the message inside
+		// Finish), /ready is requested meanwhile, then Finish is let go and /ready asked again
+		k, n := int(h.Atoi(t[1])), int(h.Atoi(t[3]))
+		if k >= len(r.startups) {
+			return "bad-op"
+		}
+		ge := &gatedErr{msg: s(2), entered: make(chan struct{}), release: make(chan struct{})}
+		finished := make(chan struct{})
+		go func() {
+			defer close(finished)
+			r.startups[k].Finish(ge)
+		}()
+		select {
+		case <-ge.entered:
+		case <-finished:
+		case <-time.After(10 * time.Second):
+			return "timeout-in-finish"
+		}
+		var out []string
+		one := func() {
+			code, body := r.get("/ready")
+			out = append(out, strconv.Itoa(code)+" "+h.HexS(field(body, "status"))+" "+showChecks(checksOf(body)))
+		}
+		for i := 0; i < n; i++ {
+			one()
+		}
+		close(ge.release)
+		select {
+		case <-finished:
+		case <-time.After(10 * time.Second):
+			return "timeout-in-finish"
+		}
+		one()
+		return strings.Join(out, " ")
 	case t[0] == "sp" && len(t) == 3:
 		f := &fakeSched{state: t[2]}
 		r.hd.AddNamedHealthCheck(check.Named(s(1), run.NewSchedulerPulseCheck(f, run.DefaultSchedulerPulseThreshold)))
@@ -430,6 +480,8 @@ func genSeq(r *h.Rand, big bool) []string {
 		case x < 31 && len(health) < capList:
 			ops = append(ops, "sp "+h.HexS(name("q", len(health)))+" "+h.Pick(r, pulseStates))
 			health = append(health, ent{'q'})
+		case x < 33 && nstart > 0:
+			ops = append(ops, "sfr "+strconv.Itoa(r.Intn(nstart))+" "+h.HexS(h.Pick(r, []string{"engine open failed", "disk on fire"}))+" "+strconv.Itoa(1+r.Intn(3)))
 		case x < 40 && nstart > 0:
 			ev := h.Pick(r, []string{"add", "add", "done", "fin", "fin", "finerr." + h.HexS(h.Pick(r, []string{"engine open failed", "disk full"})),
 				"fail." + strconv.Itoa(r.Intn(100)) + "." + h.HexS(h.Pick(r, []string{"corrupt index", "bad tsm: x"}))})
@@ -520,6 +572,30 @@ func genConc(r *h.Rand, tier string) []string {
 	return ops
 }
 
+// genFinishRace: every other ready check passes, the startup logger has never been
+// ready, and Finish(err) races with /ready requests: none of them may answer 200.
+func genFinishRace(r *h.Rand) []string {
+	var ops []string
+	ng := r.Intn(4)
+	for i := 0; i < ng; i++ {
+		ops = append(ops, "rg "+h.HexS("g"+strconv.Itoa(i)), "sig "+strconv.Itoa(i)+" 1")
+	}
+	ops = append(ops, "sl "+h.HexS("shards"))
+	for i := 0; i < r.Intn(4); i++ {
+		ops = append(ops, "se 0 "+h.Pick(r, []string{"add", "add", "done"}))
+	}
+	if r.Chance(0.3) {
+		ops = append(ops, "se 0 fail.7."+h.HexS("corrupt index"))
+	}
+	ops = append(ops, "ready", "health")
+	ops = append(ops, "sfr 0 "+h.HexS(h.Pick(r, []string{"open engine: disk on fire", "engine open failed"}))+" "+strconv.Itoa(1+r.Intn(3)))
+	ops = append(ops, "ready", "health")
+	if r.Chance(0.3) { // a late Finish(nil) does not resurrect the gate
+		ops = append(ops, "se 0 fin", "ready")
+	}
+	return ops
+}
+
 func gen(r *h.Rand, tier string, emit func([]string)) {
 	nseq, nbig, nconc := 600, 40, 300
 	if tier == "thorough" {
@@ -533,6 +609,9 @@ func gen(r *h.Rand, tier string, emit func([]string)) {
 	}
 	for i := 0; i < nconc; i++ {
 		emit(genConc(r, tier))
+	}
+	for i := 0; i < nseq/10; i++ {
+		emit(genFinishRace(r))
 	}
 }
 
